@@ -245,7 +245,58 @@ fn pq_key_case<V: Pq>(t: &mut Tally, idx: u64) {
     }
 }
 
+/// (5) signatures whose s2 has a large coefficient as the reference would encode it (its compressor
+/// admits magnitudes up to 2047): engineered triples (s2 = a X^i, s1 small, h solved), body produced
+/// by the reference's comp_encode; the reference verifier and ours must both accept.
+fn large_coefficient_part<V: Pq>(ctx: &mut Ctx) {
+    let n = V::N;
+    let salt = vec![0x44u8; 40];
+    let msg = b"large coefficient".to_vec();
+    let mut sm = salt.clone();
+    sm.extend_from_slice(&msg);
+    let c = hash_to_point(&sm, n, None);
+    let mut part = Part::new(&format!("reference_encoded_large_coefficients_{}", n), "s2 = a X^i for a in {+-127, +-128, +-895, +-896, +-897, +-1023, +-1024, +-2047} and i in {0, 1, n/2, n-1}, s1 small, public key solved so that the pair is a valid signature; the compressed body comes from the reference's comp_encode; the reference verifier and ours must accept");
+    for a in [127i64, -127, 128, -128, 895, -895, 896, -896, 897, -897, 1023, -1023, 1024, -1024, 2047, -2047] {
+        for i in [0usize, 1, n / 2, n - 1] {
+            let mut s2 = vec![0i64; n];
+            s2[i] = a;
+            let s1 = super::c02::sparse(n, &[9, 4, 2], (i + 1) % n);
+            let Some(h) = super::c02::solve_h(&c, &s1, &s2) else { continue };
+            let pkb = crate::refmodel::keycodec::pk_encode(&h);
+            let s2_16: Vec<i16> = s2.iter().map(|&x| x as i16).collect();
+            let body = if n == 512 { pq::f512::comp_encode(&s2_16, sig_len(n) - 41) } else { pq::f1024::comp_encode(&s2_16, sig_len(n) - 41) };
+            let Some(body) = body else { continue };
+            let mut pqsig = vec![0x30 | crate::refmodel::keycodec::logn(n)];
+            pqsig.extend_from_slice(&salt);
+            pqsig.extend_from_slice(&body);
+            part.states += 1;
+            part.transitions += 2;
+            part.validated += 1;
+            if !V::pq_verify(&pqsig, &msg, &pkb) {
+                machinery_error("C16: the reference rejects an engineered valid signature");
+            }
+            let ours = pq::pq_sig_to_rust(&pqsig, sig_len(n)).unwrap();
+            let r = catch(|| {
+                let pk = V::pk_from_bytes(&pkb).map_err(|e| format!("pk: {}", e))?;
+                let sig = V::sig_from_bytes(&ours).map_err(|e| format!("sig: {}", e))?;
+                Ok::<bool, String>(V::verify(&msg, &sig, &pk))
+            });
+            match r {
+                Ok(Ok(true)) => part.outcome("accepted by both".to_string()),
+                other => ctx.violation(
+                    format!("we-reject-reference-encoded-signature:n={},|a|={}", n, a.abs()),
+                    format!("{}: a valid signature whose s2 has the coefficient {} at X^{}, encoded by the reference's compressor, is accepted by the reference verifier but not here: {:?}", V::name(), a, i, other),
+                    json!({"kind":"large-coefficient","variant":n,"a":a,"i":i}),
+                ),
+            }
+        }
+    }
+    part.exhaustive = true;
+    ctx.add_part(part);
+}
+
 fn one_variant<V: Pq>(ctx: &mut Ctx, tier: Tier) {
+    large_coefficient_part::<V>(ctx);
     let n = V::N;
     let seeds = crate::util::seed_window(n, tier.thorough(), ctx.seed);
     let seeds: Vec<u64> = if tier.thorough() { seeds.into_iter().take(if n == 512 { 48 } else { 12 }).chain(crate::util::seed_window(n, false, 0).into_iter().rev().take(1)).collect() } else { seeds.into_iter().rev().take(if n == 512 { 4 } else { 2 }).collect() };
@@ -341,6 +392,7 @@ pub fn replay(case: &Value) -> Result<Option<String>, String> {
                 pq_key_case::<V1024>(&mut t, idx)
             }
         }
+        "large-coefficient" => return Err("re-run ./vf check C16 (the family is enumerated deterministically)".into()),
         _ => return Err(format!("unknown kind {}", kind)),
     }
     Ok(t.found.into_iter().next().map(|(_, f)| f.what))
